@@ -343,6 +343,7 @@ structure Config where
   opt : Opt
   kept : Nat                      -- directions a fractional request keeps (spectrum dependent, C10)
   sigma : SigmaForm := .scalar    -- function estimator only
+  lmCells : Bool := false         -- the user-supplied landmarks are the cells themselves (same rows, same order)
   deriving Repr
 
 /-- `BaseEstimator.__init__`: `gp_type` through `from_string(optional=True)`. -/
@@ -381,6 +382,8 @@ def prepare (c : Config) : Except Refusal Resolved :=
         let nl := nlUser.getD (computeNLandmarks gpUser c.n c.landmarks)
         let rank := rankUser.getD (computeRank gpUser)
         let gp := gpUser.getD (gpTypeOf nl (some rank) c.n)
+        -- `validate_parameter`: only the cells themselves may stand in for a larger number of requested landmarks
+        if gp = .fixed ∧ c.landmarks = some c.n ∧ c.n < nl ∧ c.lmCells = false then .error .landmarkCount else
         match validateParams rank gp c.n nl c.landmarks with
         | .error e => .error e
         | .ok () => .ok ⟨nl, rank, gp⟩
